@@ -138,6 +138,8 @@ def run_tlc(module, cfg, workdir=None, workers=None, timeout=600, simulate=None,
         r.violated = mv.group(1)
     elif re.search(r'Error: Action property (\S+) is violated', out):
         r.violated = re.search(r'Error: Action property (\S+) is violated', out).group(1)
+    elif re.search(r'Error: Temporal property (\S+) was violated', out):
+        r.violated = re.search(r'Error: Temporal property (\S+) was violated', out).group(1)
     elif "Error: Temporal properties were violated" in out:
         r.violated = "temporal"
     elif "Error: Deadlock reached" in out:
